@@ -6,7 +6,7 @@ import ast
 from .. import oracles as O
 from ..facts import assigned_targets
 from ..fold import Scope, dotted, names_in, src
-from .common import (always_exits, attr_stores, ctx, ff_for, find_calls, must_pass, node_calls, own_nodes, path_text)
+from .common import (always_exits, is_observational_stmt, attr_stores, ctx, ff_for, find_calls, must_pass, node_calls, own_nodes, path_text)
 
 CL = "canopen/sdo/client.py"
 SV = "canopen/sdo/server.py"
@@ -113,6 +113,8 @@ def run(chk):
             if isinstance(n, (ast.Assign, ast.AugAssign, ast.AnnAssign)):
                 for t in assigned_targets(n):
                     if t.startswith("self.") and t.count(".") == 1:
+                        if is_observational_stmt(repo, n):
+                            continue              # a counter / time stamp nothing in the package reads is not transfer state
                         chk.check(t == "self.responses", "R6", f"{CL}:SdoClient.{mname} | rebinds {t}", m.loc(n),
                                   "transfer state stored on the client object survives into the next transfer")
     chk.ok("R6", f"{CL}:SdoClient | only `responses` is rebound outside __init__", f"{CL}:{cli.node.lineno}")
